@@ -350,9 +350,8 @@ class FormulaManager(object):
           - (Optionally) a mpq or mpz object
         """
         # TODO could this be improved by storing only the relative Fraction (or int maybe) in the real_constants dict?
-        if value in self.real_constants:
-            return self.real_constants[value]
-
+        # Note: the value is validated before the cache look-up, because
+        # e.g. True == 1 and hash(True) == hash(1)
         if is_pysmt_fraction(value):
             val = value
         elif isinstance(value, tuple):
@@ -363,6 +362,9 @@ class FormulaManager(object):
             raise PysmtTypeError("Invalid type in constant. The type was:" + \
                                  str(type(value)))
 
+        if value in self.real_constants:
+            return self.real_constants[value]
+
         n = self.create_node(node_type=op.REAL_CONSTANT,
                              args=tuple(),
                              payload=val)
@@ -371,9 +373,8 @@ class FormulaManager(object):
 
     def Int(self, value: int) -> FNode:
         """Return a constant of type INT."""
-        if value in self.int_constants:
-            return self.int_constants[value]
-
+        # Note: the value is validated before the cache look-up, because
+        # e.g. 2.0 == 2 and hash(2.0) == hash(2)
         if is_pysmt_integer(value):
             val = value
         elif is_python_integer(value):
@@ -381,6 +382,10 @@ class FormulaManager(object):
         else:
             raise PysmtTypeError("Invalid type in constant. The type was:" + \
                                  str(type(value)))
+
+        if value in self.int_constants:
+            return self.int_constants[value]
+
         n = self.create_node(node_type=op.INT_CONSTANT,
                              args=tuple(),
                              payload=val)
